@@ -463,6 +463,140 @@ fn read_pool(texts: &[&'static str], t: &Table, lk: LitKind) -> Vec<(&'static st
         .collect()
 }
 
+/// every named helper method and constant constructor of `DeepEx<f64>` (default operators)
+/// against the operator of that name applied by `operate_unary` and against the Rust primitive
+/// on the operand's value; the overloaded operators and `pow` on every ordered pair of a pool
+fn named_helpers_f64(rep: &mut Report) {
+    type D = DeepEx<'static, f64>;
+    let mut acc = Acc::default();
+    let texts = ["x", "x*y+0.5", "-x", "2.5", "sin(x)-y", "0.25", "(x)", "x/(y+z)"];
+    let pts: Vec<Vec<f64>> = vec![vec![0.37, 1.9, 0.6], vec![-0.81, 0.33, 2.5], vec![3.5, -2.25, 0.125], vec![0.0, 1.0, -1.0]];
+    let same = |a: f64, b: f64| a.to_bits() == b.to_bits() || (a.is_nan() && b.is_nan());
+    macro_rules! helpers {
+        ($($name:ident => $prim:expr),*) => {{
+            for t in texts {
+                let Ok(e) = D::parse(t) else {
+                    acc.violate(Violation { signature: "helpers:base-rejected".into(), what: format!("DeepEx::parse({t:?}) failed"), case: json!({"engine": "c10-helper", "text": t}) });
+                    continue;
+                };
+                let names: Vec<String> = e.var_names().to_vec();
+                $(
+                    acc.evaluations += 1;
+                    acc.states += 1;
+                    acc.nontrivial += 1;
+                    let r = guard(|| -> Result<(), String> {
+                        let h = e.clone().$name().map_err(|x| format!("helper failed: {}", x.msg()))?;
+                        let o = e.clone().operate_unary(stringify!($name)).map_err(|x| format!("operate_unary failed: {}", x.msg()))?;
+                        if h.var_names() != names.as_slice() {
+                            return Err(format!("variables {:?} instead of {names:?}", h.var_names()));
+                        }
+                        // (Debug form: a folded NaN is not equal to itself)
+                        if format!("{h:?}") != format!("{o:?}") {
+                            return Err(format!("differs structurally from operate_unary({:?}): {} vs {}", stringify!($name), h.unparse(), o.unparse()));
+                        }
+                        for p in &pts {
+                            let vals = &p[..names.len()];
+                            let inner = e.eval(vals).map_err(|x| x.msg().to_string())?;
+                            let got = h.eval(vals).map_err(|x| x.msg().to_string())?;
+                            let prim: fn(f64) -> f64 = $prim;
+                            let want = prim(inner);
+                            acc.transitions += 1;
+                            if !same(got, want) {
+                                return Err(format!("at {vals:?} the result evaluates to {got:?}, the primitive on the operand's value {inner:?} gives {want:?}"));
+                            }
+                        }
+                        Ok(())
+                    });
+                    let bad = match r { Ok(Ok(())) => None, Ok(Err(m)) => Some(m), Err(p) => Some(format!("panic: {p}")) };
+                    if let Some(m) = bad {
+                        acc.violate(Violation { signature: format!("helper:{}", stringify!($name)), what: format!("DeepEx::parse({t:?}).{}(): {m}", stringify!($name)), case: json!({"engine": "c10-helper", "text": t, "helper": stringify!($name)}) });
+                    }
+                )*
+            }
+        }};
+    }
+    helpers!(abs => f64::abs, sin => f64::sin, cos => f64::cos, tan => f64::tan, sinh => f64::sinh, cosh => f64::cosh, tanh => f64::tanh, asin => f64::asin, acos => f64::acos, atan => f64::atan,
+        signum => f64::signum, log => f64::ln, log2 => f64::log2, log10 => f64::log10, ln => f64::ln, round => f64::round, floor => f64::floor, ceil => f64::ceil, exp => f64::exp, sqrt => f64::sqrt,
+        cbrt => f64::cbrt, fract => f64::fract, trunc => f64::trunc);
+    // constants
+    for (name, e, want) in [("pi", D::pi(), std::f64::consts::PI), ("e", D::e(), std::f64::consts::E), ("tau", D::tau(), std::f64::consts::TAU), ("one", D::one(), 1.0), ("zero", D::zero(), 0.0), ("from_num(2.5)", D::from_num(2.5), 2.5)] {
+        acc.evaluations += 1;
+        acc.states += 1;
+        let ok = e.var_names().is_empty() && matches!(e.eval(&[]), Ok(v) if same(v, want));
+        if !ok {
+            acc.violate(Violation { signature: format!("constant:{name}"), what: format!("DeepEx::{name}() has variables {:?} and evaluates to {:?} instead of {want}", e.var_names(), e.eval(&[])), case: json!({"engine": "c10-helper", "constant": name}) });
+        }
+    }
+    // overloaded operators and pow on every ordered pair
+    for ta in texts {
+        for tb in texts {
+            let (Ok(a), Ok(b)) = (D::parse(ta), D::parse(tb)) else { continue };
+            let mut un: Vec<String> = a.var_names().iter().chain(b.var_names().iter()).cloned().collect();
+            un.sort();
+            un.dedup();
+            let all = ["x", "y", "z"];
+            type R = Result<D, exmex::ExError>;
+            let cases: Vec<(&str, Box<dyn Fn() -> R>, fn(f64, f64) -> f64)> = vec![
+                ("+", Box::new(|| a.clone() + b.clone()), |p, q| p + q),
+                ("-", Box::new(|| a.clone() - b.clone()), |p, q| p - q),
+                ("*", Box::new(|| a.clone() * b.clone()), |p, q| p * q),
+                ("/", Box::new(|| a.clone() / b.clone()), |p, q| p / q),
+                ("pow", Box::new(|| a.clone().pow(b.clone())), |p, q| p.powf(q)),
+            ];
+            for (oname, f, prim) in cases {
+                acc.evaluations += 1;
+                acc.states += 1;
+                acc.nontrivial += 1;
+                let r = guard(|| -> Result<(), String> {
+                    let c = f().map_err(|x| format!("failed: {}", x.msg()))?;
+                    if c.var_names() != un.as_slice() {
+                        return Err(format!("variables {:?} instead of the sorted union {un:?}", c.var_names()));
+                    }
+                    for p in &pts {
+                        let val_of = |e: &D| -> Result<f64, String> {
+                            let v: Vec<f64> = e.var_names().iter().map(|n| p[all.iter().position(|k| k == n).unwrap()]).collect();
+                            e.eval(&v).map_err(|x| x.msg().to_string())
+                        };
+                        let (va, vb, got) = (val_of(&a)?, val_of(&b)?, val_of(&c)?);
+                        let want = prim(va, vb);
+                        // the shortcuts may only change the value where the unsimplified form is undefined
+                        let close = same(got, want) || (got - want).abs() <= 4.0 * f64::EPSILON * want.abs().max(got.abs());
+                        if !close && want.is_finite() && va.is_finite() && vb.is_finite() {
+                            return Err(format!("at {p:?}: {got:?}, the operator applied to the operands' values ({va:?}, {vb:?}) gives {want:?}"));
+                        }
+                    }
+                    Ok(())
+                });
+                let bad = match r { Ok(Ok(())) => None, Ok(Err(m)) => Some(m), Err(p) => Some(format!("panic: {p}")) };
+                if let Some(m) = bad {
+                    acc.violate(Violation { signature: format!("overloaded-f64:{oname}"), what: format!("DeepEx::parse({ta:?}) {oname} DeepEx::parse({tb:?}): {m}"), case: json!({"engine": "c10-helper", "a": ta, "b": tb, "op": oname}) });
+                }
+            }
+        }
+    }
+    rep.absorb(acc);
+    rep.bounds.push(format!("named helpers: 23 helper methods x {} deep expressions x {} points against operate_unary and the Rust primitive; 6 constant constructors; + - * / pow on all {} ordered pairs: complete", texts.len(), pts.len(), texts.len() * texts.len()));
+}
+
+/// replay of one case of the helper family: the family is re-run (it is small and fixed) and
+/// the recorded case is looked up in its results
+pub fn replay_helper(case: &Value) -> i32 {
+    install_panic_hook();
+    let mut rep = Report::new("C10", Tier::Quick);
+    named_helpers_f64(&mut rep);
+    println!("case: {case}");
+    match rep.violations.iter().find(|v| &v.case == case) {
+        Some(v) => {
+            println!("  BAD {}: {}", v.signature, v.what);
+            1
+        }
+        None => {
+            println!("  => this case agrees with the reference");
+            0
+        }
+    }
+}
+
 pub fn run(tier: Tier) -> i32 {
     let mut rep = Report::new("C10", tier);
     rep.rule = "explicit-state exploration of operator-application histories over pools of parsed expressions with overlapping and disjoint variable sets: (i) operate_unary/operate_binary by name on FlatEx (parsed and parse_wo_compile) and DeepEx with the symbolic data type and the universal table, and with a second operator factory holding the same operators in reverse table order used on the same thread (reference tree in lock-step, equality modulo AC); (ii) + - * / pow and neg on DeepEx over exact rationals incl. the neutral-element shortcuts, and by-name application on the flat form (exact equality on a rational grid incl. 0 and 1 wherever the unsimplified form is defined and no power has base zero with a non-positive exponent); distinct = unique structural dumps; non-trivial = at least one application".into();
@@ -488,5 +622,6 @@ pub fn run(tier: Tier) -> i32 {
     let m = QModel { pool: Arc::new(pool_q), table: qt, max_len: if tier.thorough() { 4 } else { 3 } };
     explore(m, &mut rep, "c10", "rationals/shortcuts");
     crate::derived::run_derived(&mut rep, "C10", crate::derived::Focus::Apply, tier.thorough());
+    named_helpers_f64(&mut rep);
     rep.finish()
 }
